@@ -12,12 +12,16 @@
      OrderInsensitive  the result of the iteration is the same for every order
      Canonicalised     the items are put into a canonical order (sorted on pairwise different keys) before use
      DiagnosticsOnly   the order reaches only the ORDER of the error messages of a rejected program
-     Observable        the order reaches an artefact: a finding (KNOWN_FINDINGS.txt), demonstrated by checks/C15.py *)
+     Observable        the order reaches an artefact: a finding (KNOWN_FINDINGS.txt), demonstrated by checks/C15.py
+     NotSymbolOrder    (second table, symbol_order_sites) the sort / search / comparison / ordered-map walk is keyed by strings
+                       or numbers, not by Symbol; a site that IS ordered by Symbol (= by the interner index, i.e. by which name
+                       the process happened to intern first, C15_id_order_refuted) must be OrderInsensitive, Canonicalised or
+                       Observable with a reason *)
 From Coq Require Import String List Bool.
 Import ListNotations.
 Open Scope string_scope.
 
-Inductive site_class : Type := NotHash | OrderInsensitive | Canonicalised | DiagnosticsOnly | Observable.
+Inductive site_class : Type := NotHash | OrderInsensitive | Canonicalised | DiagnosticsOnly | Observable | NotSymbolOrder.
 
 Record site_entry := mkClass {
   sc_file : string; sc_fn : string; sc_text : string; sc_fp : string; sc_class : site_class; sc_reason : string }.
@@ -170,4 +174,80 @@ Definition site_classes : list site_entry := [
           "for (alias_name, target_type) in sorted_by_name(type_aliases) {"
           "0a078ca379" Canonicalised
           "iterates the Vec returned by sorted_by_name: the map's entries sorted by the NAME string of their key (pairwise different keys), a canonical and history-independent order (Sort.sorted_canonical)"
+].
+
+(* classification of Tables/HashIterSites.v symbol_order_sites *)
+Definition order_classes : list site_entry := [
+  mkClass "compiler/bytecodegen.rs" "ByteCodeGenerator::emit_instruction"
+          "constants.binary_search(&cval).unwrap_or_else(|_err| {"
+          "64308fc5e3" NotSymbolOrder
+          "searches a Vec<RawVal> (u64 machine words: bit patterns of numeric constants), not symbols";
+  mkClass "compiler/mirgen.rs" "Context::canonical_record_type_id"
+          "normalized_fields.sort_by(|a, b| a.key.as_str().cmp(b.key.as_str()));"
+          "d03e9cc043" NotSymbolOrder
+          "record fields sorted by the NAME STRING of the key (key.as_str()), not by the Symbol";
+  mkClass "compiler/mirgen.rs" "canonicalize_record_layout_type"
+          "normalized_fields.sort_by(|a, b| a.key.as_str().cmp(b.key.as_str()));"
+          "6206624355" NotSymbolOrder
+          "record fields sorted by the NAME STRING of the key (key.as_str()), not by the Symbol";
+  mkClass "compiler/parser/lower.rs" "Lowerer::lower_record_fields"
+          "fields.sort_by(|a, b| a.name.as_ref().cmp(b.name.as_ref()));"
+          "ed5e470fcd" NotSymbolOrder
+          "record fields sorted by the NAME STRING (name.as_ref(): &str), not by the Symbol";
+  mkClass "compiler/rustgen.rs" "RustGenerator::default_argument_functions"
+          "defaults.sort_unstable();"
+          "078b4b9729" NotSymbolOrder
+          "sorts function indices (usize, func.index); rustgen is not on the bytecode/WASM path";
+  mkClass "compiler/rustgen.rs" "RustGenerator::emit_function"
+          "regs.sort_by_key(|(reg, _size)| *reg);"
+          "91bbefb59a" NotSymbolOrder
+          "sorts (register number, size) pairs by register number (u64)";
+  mkClass "compiler/rustgen.rs" "RustGenerator::collect_fallthrough_edges"
+          "starts.sort_unstable();"
+          "3a3fb65fd0" NotSymbolOrder
+          "sorts block start indices (usize)";
+  mkClass "compiler/rustgen.rs" "RustGenerator::collect_fallthrough_edges"
+          "starts.sort_unstable();  #2"
+          "3a3fb65fd0" NotSymbolOrder
+          "sorts block start indices (usize)";
+  mkClass "compiler/typing.rs" "sorted_by_name"
+          "entries.sort_by(|a, b| a.0.as_str().cmp(b.0.as_str()));"
+          "92a4c390a1" NotSymbolOrder
+          "entries sorted by the NAME STRING of the key (as_str()), which is what makes the walk over the declaration maps history independent";
+  mkClass "compiler/typing.rs" "InferContext::lookup_explicit_type_param"
+          "self.explicit_type_param_scopes .iter()"
+          "62fc0688da" NotSymbolOrder
+          "explicit_type_param_scopes: Vec<BTreeMap<Symbol,_>> is walked as a Vec (innermost scope first); each BTreeMap is only asked `get(&name)`";
+  mkClass "compiler/typing/unification.rs" "unify_types"
+          "match a1.len().cmp(&a2.len()) {"
+          "fbd871fd9c" NotSymbolOrder
+          "compares two lengths (usize) / sorts record fields by the NAME STRING of the key (as_str())";
+  mkClass "compiler/typing/unification.rs" "unify_types"
+          "let keys_a = a1.iter().sorted_by(move |a, b| {"
+          "7f8e9480ed" NotSymbolOrder
+          "compares two lengths (usize) / sorts record fields by the NAME STRING of the key (as_str())";
+  mkClass "compiler/typing/unification.rs" "unify_types"
+          "let keys_b = a2.iter().sorted_by(move |a, b| {"
+          "c863aa24f8" NotSymbolOrder
+          "compares two lengths (usize) / sorts record fields by the NAME STRING of the key (as_str())";
+  mkClass "compiler/wasmgen.rs" "WasmGenerator::build_name_section"
+          "pairs.sort_by_key(|(idx, _)| *idx);"
+          "7c9a181267" NotSymbolOrder
+          "sorts (function index, name) pairs by the function index (u32)";
+  mkClass "runtime/vm.rs" "<module>"
+          "Self::get_as::<f64>($self.get_stack($src as i64)).partial_cmp(&0.0),"
+          "dcc0596d92" NotSymbolOrder
+          "compares an f64 with 0.0";
+  mkClass "runtime/vm.rs" "set_vec"
+          "match i.cmp(&vec.len()) {"
+          "55082c50fe" NotSymbolOrder
+          "compares an index with a length (usize)";
+  mkClass "runtime/vm.rs" "set_vec_range"
+          "match start.cmp(&vec.len()) {"
+          "1b09e4e269" NotSymbolOrder
+          "compares an index with a length (usize)";
+  mkClass "runtime/vm/program.rs" "FuncProto::add_new_constant"
+          "self.constants.binary_search(&cval).unwrap_or_else(|_err| {"
+          "96237006fc" NotSymbolOrder
+          "searches a Vec<RawVal> (u64 machine words), not symbols"
 ].
